@@ -56,11 +56,15 @@ def fdae_problem(h):
 
 def triples(rng, n):
     out = [(0.0, 1.0, 0.1), (0.0, 0.3, 0.1), (0.0, 1.0, 0.3), (0.0, 2.0, 0.25), (-3.0, 1.0, 0.3), (0.0, 0.05, 0.1),
-           (0.0, 1.0, 1.0 / 3.0), (-0.7, 0.5, 0.1), (2.5, 2.5, 0.1), (0.0, 20.0, 0.1), (-20.0, 0.0, 0.01), (0.0, 1.1, 0.25)]
+           (0.0, 1.0, 1.0 / 3.0), (-0.7, 0.5, 0.1), (2.5, 2.5, 0.1), (0.0, 20.0, 0.1), (-20.0, 0.0, 0.01), (0.0, 1.1, 0.25),
+           # large absolute times with exactly representable steps (epoch seconds, 2**23): the end test is relative to the step
+           (1700000000.0, 1700000060.0, 1.0), (8388608.0, 8388608.5, 0.0078125), (-1700000000.0, -1699999990.0, 0.5)]
     hs = [0.1, 0.3, 1.0 / 3.0, 0.25, 0.01, 0.7, 0.05, 1e-3, 0.2, 0.6]
     while len(out) < n:
         h = float(rng.choice(hs))
-        t0 = float(rng.choice([0.0, 0.0, -1.0, 0.37, -12.5, 100.0, 1e-3]))
+        t0 = float(rng.choice([0.0, 0.0, -1.0, 0.37, -12.5, 100.0, 1e-3, 1048576.0, 1.7e9]))
+        if abs(t0) >= 1e6:
+            h = float(rng.choice([1.0, 0.5, 0.25, 0.125]))        # steps that are exact at that magnitude
         k = int(rng.integers(1, 400))
         frac = float(rng.choice([0.0, 0.0, 0.0, 0.05, 0.1, 0.11, 0.3, 0.5, 0.9, 0.99]))
         tend = t0 + (k + frac) * h
